@@ -1,7 +1,11 @@
 """C09 — autoregressive, coupling and block structure holds for all weights.
 
-Tie to the code (the model `lean/Flowjaxv/Model/Masks.lean` is hand-written):
-  (a) structure: the model's `rank_based_mask` / `block_diag_mask` / `block_tril_mask`, integer `%`, rank vectors and
+Tie to the code:
+  (g) regeneration: `rank_based_mask`, `block_diag_mask`, `block_tril_mask`, the rank assignment of `MaskedAutoregressive.__init__`
+      and the per-layer masks of `masked_autoregressive_mlp` are re-translated from /repo on every run (`Gen/MasksGen.lean`,
+      typing sheet `tools/py2lean/targets_masks.py`) and PROVED equal to the hand model for every size (`Proofs/MasksGen.lean`);
+      the generated definitions are also run (ops `g…`) against the real functions / `Where.cond`s on the same grid as the model;
+  (a) structure (the model `lean/Flowjaxv/Model/Masks.lean` is hand-written): the model's `rank_based_mask` / `block_diag_mask` / `block_tril_mask`, integer `%`, rank vectors and
       layer masks are compared ENTRY BY ENTRY with the real `flowjax.masks.*` and with the `Where.cond` arrays found
       in a really constructed `MaskedAutoregressive(...)`, exhaustively over the size grid;
   (b) behaviour: the model's forward passes (masked MLP -> flat transformer parameters -> Affine transform, Coupling,
@@ -30,7 +34,7 @@ import vlib
 from vlib import fs2b, b2fs, ints
 
 ID = "C09"
-GEN = []
+GEN = ["MasksGen"]
 RULE = ("exhaustive size grid: rank_based_mask on integer rank vectors of length 0..4 with repeated/negative ranks, both eq; "
         "block masks for block shapes (1..3)x(1..3), n_blocks 1..4, k in -2..2; MaskedAutoregressive for dim 1..5, cond_dim None/1/3, "
         "width 1..7, depth 0..3, transformer Affine (2 params) / RationalQuadraticSpline(knots=2) (8 params): every Where.cond mask "
@@ -41,7 +45,12 @@ RULE = ("exhaustive size grid: rank_based_mask on integer rank vectors of length
 TRUSTED = [
     "Lean 4.33 kernel; Mathlib v4.33; axioms propext, Classical.choice, Quot.sound",
     "hand-written model lean/Flowjaxv/Model/Masks.lean (masks, rank formulas, masked MLP, Coupling.transform, BNAF transform), "
-    "tied by this correspondence: masks entry by entry on the whole grid, forward passes at Float (rtol 1e-9)",
+    "tied by this correspondence: masks entry by entry on the whole grid, forward passes at Float (rtol 1e-9); the mask helpers, rank "
+    "assignment and per-layer masks additionally by regeneration (Gen/MasksGen.lean proved equal to the model for every size)",
+    "translator tools/py2lean/py2mask.py + typing sheet targets_masks.py (dim, width, cond_dim, n_blocks, block_shape entries are "
+    "non-negative ints; num_params and the eqx.nn.MLP enter as parameters) and the primitive specs Prelude/JnpMask.lean "
+    "(arange, integer %, hstack, repeat, broadcasting comparison, zeros, Python slice bounds, .at[a:b, c:d].set, block_diag, "
+    "enumerate, list indexing) — validated here against the real functions",
     "Prelude/Jnp.lean `dot`/`sum` (sequential sums; XLA's reduction order differs only by rounding)",
     "equinox.nn.MLP / Linear call semantics (weight @ x + bias, scalar activation per unit) as modelled by `mlpForward`",
     "theorems are over ℝ and about dependency (functions agreeing on inputs), the Jacobian statement for BNAF is the chain-rule "
@@ -184,13 +193,31 @@ def corr_masks(c, tier, rng):
                     c.count("block_tril_mask")
                     if real != closed_block_tril(b0, b1, n, k):
                         c.mismatch("block_tril_mask-documented-pattern", block_shape=(b0, b1), n_blocks=n, k=k, impl=real)
+    add_generated(c, lines, wants, infos)
     outs = vlib.run_model(lines)
     for line, got, want, (name, info) in zip(lines, outs, wants, infos):
+        tag = "-generated" if line.startswith("g") else ""
         if name == "jmod":
             if got != want:
-                c.mismatch("jmod-vs-jnp.remainder", op=line, model=got, impl=want, **info)
+                c.mismatch("jmod" + tag + "-vs-jnp.remainder", op=line, model=got, impl=want, **info)
         elif got.startswith("ERR") or parse_mask(got) != want:
-            c.mismatch(name + "-vs-impl", op=line, model=got, impl=want, **info)
+            c.mismatch(name + tag + "-vs-impl", op=line, model=got, impl=want, **info)
+
+
+GEN_OPS = {"jmod": "gimod", "rankmask": "grankmask", "blockdiag": "gblockdiag", "blocktril": "gblocktril", "mafranks": "gmafranks",
+           "mafmasks": "gmafmasks"}
+
+
+def add_generated(c, lines, wants, infos):
+    """every structural op once more on the definitions generated from the source (same expected value from the real code)"""
+    for line, want, info in list(zip(lines, wants, infos)):
+        op, rest = line.split(" ", 1)
+        if op in GEN_OPS:
+            lines.append(GEN_OPS[op] + " " + rest)
+            wants.append(want)
+            infos.append(info)
+            c.case(("generated", line), True, sample={"op": lines[-1], "impl": want} if line in ("blocktril 2 1 3 -1", "mafmasks 3 1 2 1 2") else None)
+            c.count("generated:" + op)
 
 
 def maf_grid(tier):
@@ -234,15 +261,17 @@ def corr_maf_masks(c, tier, rng):
             infos.append(dict(ranks=True, dim=dim, cond_dim=cd, width=w))
             c.case(("mafranks", dim, cd, w), dim == 1 or w < dim)
             c.count("maf-ranks")
+    add_generated(c, lines, wants, infos)
     outs = vlib.run_model(lines)
     for line, got, want, info in zip(lines, outs, wants, infos):
+        tag = "generated-" if line.startswith("g") else ""
         if info.get("ranks"):
             if got != want:
-                c.mismatch("maf-rank-vectors-vs-jnp", op=line, model=got, impl=want, **info)
+                c.mismatch(tag + "maf-rank-vectors-vs-jnp", op=line, model=got, impl=want, **info)
         else:
             model = [parse_mask(m) for m in got.split("|")] if not got.startswith("ERR") else got
             if model != want:
-                c.mismatch("maf-layer-masks-vs-Where.cond", op=line, model=got, impl=want, **info)
+                c.mismatch(tag + "maf-layer-masks-vs-Where.cond", op=line, model=got, impl=want, **info)
 
 
 def behaviour_configs(tier, rng):
